@@ -52,30 +52,95 @@ def _subst(e, env, depth=0):
     return T().visit(copy.deepcopy(e))
 
 
-def _inline_helpers(m: Module, e, depth=0):
-    """Inline calls to module-level helper functions whose body is a single return expression."""
+def resolver_for(m: Module, cls=None):
+    """Call -> FunctionDef for helpers of the same module (plain functions) or class (self./cls./Class. methods)."""
+    funcs = m.functions()
+
+    def resolve(call):
+        d = dotted(call.func)
+        if not d:
+            return None
+        if d in funcs:
+            return funcs[d]
+        parts = d.split(".")
+        if cls is not None and len(parts) == 2 and parts[0] in ("self", "cls", cls.name):
+            return m.get_method(cls, parts[1], required=False)
+        return None
+    return resolve
+
+
+def _helper_value(m: Module, f, cls=None):
+    """If every normal exit of helper f returns the same expression (other exits raise), that expression with the
+    helper's single-assignment locals substituted; else None."""
+    if f.decorator_list and not all(dotted(d) in ("staticmethod", "classmethod") for d in f.decorator_list):
+        return None
+    fenv, fmulti = _single_assign_env(f)
+    params = {a.arg for a in f.args.args}
+    if fmulti - params:
+        return None
+    rets = [x for x in walk_no_nested(f) if isinstance(x, ast.Return)]
+    if not rets or any(r.value is None for r in rets):
+        return None
+    if any(isinstance(x, (ast.For, ast.While, ast.Try, ast.With, ast.Match)) for x in walk_no_nested(f)):
+        return None
+    vals = {norm(_subst(r.value, fenv)) for r in rets}
+    if len(vals) != 1:
+        return None
+    # every `if` body must either raise or be on the way to the single return
+    for x in walk_no_nested(f):
+        if isinstance(x, ast.If):
+            for branch in (x.body, x.orelse):
+                if branch and not any(isinstance(y, (ast.Raise, ast.Return)) for st_ in branch for y in ast.walk(st_)) and \
+                        any(isinstance(st_, (ast.Assign, ast.AugAssign)) for st_ in branch):
+                    return None
+    return _subst(rets[0].value, fenv)
+
+
+def _inline_helpers(m: Module, e, depth=0, cls=None, keep=("deterministic_proba", "deterministic_choice")):
+    """Inline calls to helpers of the module / class whose value is one expression (guards that raise are
+    irrelevant to the value)."""
     if depth > 4:
         return e
-    funcs = m.functions()
+    resolve = resolver_for(m, cls)
 
     class T(ast.NodeTransformer):
         def visit_Call(self, n):
             self.generic_visit(n)
-            if isinstance(n.func, ast.Name) and n.func.id in funcs and not n.keywords:
-                f = funcs[n.func.id]
-                body = [x for x in f.body if not (isinstance(x, ast.Expr) and isinstance(x.value, ast.Constant))]
-                params = [a.arg for a in f.args.args]
-                straight = all(isinstance(x, (ast.Assign, ast.Return, ast.AnnAssign)) for x in body)
-                rets = [x for x in body if isinstance(x, ast.Return)]
-                if straight and len(rets) == 1 and body[-1] is rets[0] and rets[0].value is not None and len(params) == len(n.args) \
-                        and not f.decorator_list:
-                    fenv, fmulti = _single_assign_env(f)
-                    if not fmulti - set(params):
-                        expr = _subst(rets[0].value, fenv)
-                        return _inline_helpers(m, _subst(expr, dict(zip(params, n.args))), depth + 1)
-            return n
+            f = resolve(n)
+            if f is None or f.name in keep or n.keywords and any(k.arg is None for k in n.keywords):
+                return n
+            params = [a.arg for a in f.args.args]
+            if params and params[0] in ("self", "cls") and isinstance(n.func, ast.Attribute):
+                params = params[1:]
+            val = _helper_value(m, f, cls)
+            if val is None:
+                return n
+            binding = dict(zip(params, n.args))
+            for k in n.keywords:
+                binding[k.arg] = k.value
+            if set(params) - set(binding):
+                # defaults
+                defaults = dict(zip(params[len(params) - len(f.args.defaults):], f.args.defaults))
+                for p_ in set(params) - set(binding):
+                    if p_ in defaults:
+                        binding[p_] = defaults[p_]
+                    else:
+                        return n
+            return _inline_helpers(m, _subst(val, binding), depth + 1, cls, keep)
     import copy
     return T().visit(copy.deepcopy(e))
+
+
+def module_constants(m: Module) -> dict:
+    """Module-level NAME = <constant expression> bindings (assigned once)."""
+    seen = {}
+    for st in m.tree.body:
+        if isinstance(st, ast.Assign) and len(st.targets) == 1 and isinstance(st.targets[0], ast.Name):
+            seen.setdefault(st.targets[0].id, []).append(st.value)
+        elif isinstance(st, ast.AnnAssign) and isinstance(st.target, ast.Name) and st.value is not None:
+            seen.setdefault(st.target.id, []).append(st.value)
+    return {k: v[0] for k, v in seen.items() if len(v) == 1 and not any(isinstance(x, (ast.Call, ast.Lambda)) and not
+            (isinstance(x, ast.Call) and dotted(x.func) in ("int", "float", "pow")) for x in ast.walk(v[0]))}
 
 
 def _const_int(e):
@@ -118,7 +183,8 @@ def hash_descriptor(ctx: Ctx):
     rets = [n for n in walk_no_nested(fn) if isinstance(n, ast.Return)]
     if len(rets) != 1 or any(isinstance(n, (ast.If, ast.For, ast.While, ast.Try, ast.Match)) for n in walk_no_nested(fn)):
         raise AnalysisError("deterministic_proba is no longer straight-line code with one return: idiom not recognised")
-    e = _inline_helpers(m, _subst(rets[0].value, env))
+    consts = {k: v for k, v in module_constants(m).items() if k not in env}
+    e = _subst(_inline_helpers(m, _subst(rets[0].value, env)), consts)
     d = {"fn": fn, "mod": m, "expr": norm(e), "param": p}
     # <int> / <divisor>
     if not (isinstance(e, ast.BinOp) and isinstance(e.op, ast.Div)):
@@ -286,6 +352,54 @@ def rule_choice_search(ctx: Ctx, rid="C03.BISECT-RIGHT", parts=("right", "clamp"
     calls = [n for n in walk_no_nested(fn) if isinstance(n, ast.Call) and dotted(n.func)
              and (m.imports.get(dotted(n.func), ("", ""))[0] == "bisect" or dotted(n.func).startswith("bisect."))]
     if not calls:
+        # alternative idiom: a hand-written binary search helper called with (cum_weights, u*total, lo, hi)
+        for hc in [n for n in walk_no_nested(fn) if isinstance(n, ast.Call) and dotted(n.func) in m.functions()
+                   and n.args and norm(n.args[0]) == "cum_weights"]:
+            f = m.functions()[dotted(hc.func)]
+            loops = [w for w in ast.walk(f) if isinstance(w, ast.While)]
+            ps = [a_.arg for a_ in f.args.args]
+            if not loops or len(ps) < 2:
+                continue
+            seq, key = ps[0], ps[1]
+            verdict = None
+            for t in [x for w in loops for x in ast.walk(w) if isinstance(x, ast.If) and isinstance(x.test, ast.Compare) and len(x.test.ops) == 1]:
+                l, r, op = norm(t.test.left), norm(t.test.comparators[0]), t.test.ops[0]
+                body_sets_hi = any(isinstance(a_, ast.Assign) and norm(a_.targets[0]) == "hi" for a_ in t.body)
+                if l == key and r.startswith(seq + "[") and isinstance(op, ast.Lt):
+                    verdict = "right" if body_sets_hi else "left"
+                elif r == key and l.startswith(seq + "[") and isinstance(op, ast.Lt):
+                    verdict = "left" if not body_sets_hi else "right?"
+                elif l == key and r.startswith(seq + "[") and isinstance(op, ast.LtE):
+                    verdict = "left" if body_sets_hi else "right"
+            if verdict is None:
+                continue
+            if "right" in parts:
+                ctx.rep.check(verdict == "right", rid, con + f"[{f.name}]",
+                              f"hand-written binary search `{f.name}` is a right bisection (x < a[mid] moves hi)" if verdict == "right" else
+                              f"hand-written binary search `{f.name}` is a left bisection: a unit on a boundary falls into the earlier group",
+                              site=m.site(f), text=f"{f.name}: {verdict}")
+            if "clamp" in parts:
+                argt = [norm(_subst(a_, env)) for a_ in hc.args[2:]] + [norm(_subst(k.value, env)) for k in hc.keywords]
+                hi_ = next((a_ for a_ in argt if a_ in ("len(population) - 1", "n - 1")), None)
+                starts_zero = any(isinstance(a_, ast.Assign) and "lo" in norm(a_.targets[0]) and norm(a_.value).startswith(("0", "(0"))
+                                  for a_ in ast.walk(f)) or any(a_ == "0" for a_ in argt)
+                lo_ = 0 if starts_zero else None
+                okc = lo_ == 0 and hi_ is not None
+                ctx.rep.check(okc, rid.split(".")[0] + ".BISECT-CLAMP", con + f"[{f.name} bounds]", "search limited to lo=0, hi=n-1" if okc else
+                              f"search bounds are lo={lo_}, hi={hi_}", site=m.site(hc), text=f"lo {lo_} hi {hi_}")
+            if "locate" in parts and len(hc.args) > 1:
+                xt_ = norm(_inline_helpers(m, _subst(hc.args[1], env)))
+                okl = xt_ in {"deterministic_proba(input_id) * (cum_weights[-1] + 0.0)", "deterministic_proba(input_id) * total"}
+                ctx.rep.check(okl, rid.split(".")[0] + ".LOCATE", con + f"[{f.name} operands]", "locates u*total in the cumulative weights" if okl else
+                              f"search operand is {xt_}", site=m.site(hc), text=xt_)
+            calls = None
+            break
+        if calls is None:
+            calls = []
+            _searched = True
+        else:
+            _searched = False
+    if not calls and not locals().get("_searched"):
         # alternative idiom: a linear scan over the cumulative weights
         loops = [n for n in walk_no_nested(fn) if isinstance(n, ast.For) and "cum_weights" in norm(n.iter)]
         for lp in loops:
@@ -320,7 +434,7 @@ def rule_choice_search(ctx: Ctx, rid="C03.BISECT-RIGHT", parts=("right", "clamp"
         # arguments
         args = list(c.args)
         a0 = norm(args[0]) if args else "?"
-        lo = _const_int(_subst(args[2], env)) if len(args) > 2 else next((_const_int(k.value) for k in c.keywords if k.arg == "lo"), None)
+        lo = _const_int(_subst(args[2], env)) if len(args) > 2 else next((_const_int(k.value) for k in c.keywords if k.arg == "lo"), 0)
         hi_e = args[3] if len(args) > 3 else next((k.value for k in c.keywords if k.arg == "hi"), None)
         hi_t = norm(_subst(hi_e, env)) if hi_e is not None else None
         n_e = norm(_subst(ast.Name("n", ast.Load()), env))
@@ -329,7 +443,7 @@ def rule_choice_search(ctx: Ctx, rid="C03.BISECT-RIGHT", parts=("right", "clamp"
                       "search limited to lo=0, hi=n-1 (the index is always valid even if u*total rounds up to total)" if clamp_ok else
                       f"search bounds are lo={lo}, hi={hi_t}: without hi=n-1 a product that rounds up to the total indexes "
                       "past the population", site=m.site(c), text=f"lo {lo} hi {hi_t}")
-        x = _subst(args[1], env) if len(args) > 1 else None
+        x = _inline_helpers(m, _subst(args[1], env)) if len(args) > 1 else None
         xt = norm(x) if x is not None else "?"
         want = {"deterministic_proba(input_id) * (cum_weights[-1] + 0.0)", "deterministic_proba(input_id) * total",
                 "(cum_weights[-1] + 0.0) * deterministic_proba(input_id)"}
@@ -344,10 +458,12 @@ def rule_choice_search(ctx: Ctx, rid="C03.BISECT-RIGHT", parts=("right", "clamp"
         if norm(e) in ACC:
             return True
         # a helper of the module all of whose returns are (names bound to) list(accumulate(<its parameter>))
-        if isinstance(e, ast.Call) and dotted(e.func) in m.functions() and len(e.args) == 1 and norm(e.args[0]) == "weights":
+        if isinstance(e, ast.Call) and dotted(e.func) in m.functions() and e.args and norm(e.args[0]) == "weights":
             f = m.functions()[dotted(e.func)]
             par = f.args.args[0].arg if f.args.args else None
-            want = {a.replace("weights", par) for a in ACC}
+            want = {a.replace("weights", par) for a in ACC} | {"None"}
+            if len(e.args) > 1 and len(f.args.args) > 1 and norm(e.args[1]) == "cum_weights":
+                want.add(f.args.args[1].arg)      # the caller's cum_weights handed back unchanged
             for r in [x for x in ast.walk(f) if isinstance(x, ast.Return)]:
                 v = r.value
                 if v is None:
@@ -381,6 +497,13 @@ def rule_choice_search(ctx: Ctx, rid="C03.BISECT-RIGHT", parts=("right", "clamp"
                   "cum_weights = list(accumulate(weights)): prefix sums of the weights in declared order" if ok else
                   f"cum_weights is built by {[norm(x.value) for x in cw]}", site=site, text=str([norm(x.value) for x in cw]))
     tot = env.get("total")
+    if tot is not None:
+        tot = _inline_helpers(m, tot)
+    if tot is None:
+        # `total` may have been folded into the search operand
+        for c in calls:
+            if len(c.args) > 1 and "cum_weights[-1]" in norm(_inline_helpers(m, _subst(c.args[1], env))):
+                tot = ast.parse("cum_weights[-1] + 0.0", mode="eval").body
     ok = tot is not None and norm(tot) in ("cum_weights[-1] + 0.0", "float(cum_weights[-1])", "cum_weights[-1]")
     ctx.rep.check(ok, rid.split(".")[0] + ".PREFIX-SUMS", con + "[total]", "total = last prefix sum" if ok else f"total = {norm(tot) if tot else '?'}",
                   site=site, text=norm(tot) if tot is not None else "total?")
@@ -427,7 +550,7 @@ def rule_random_guarded(ctx: Ctx, rid="C01.RANDOM-GUARDED"):
     m, fn = _choice(ctx)
     con = f"{BIN}:deterministic_choice"
     idp = fn.args.args[0].arg
-    paths = flow.enumerate_paths(fn)
+    paths = flow.enumerate_paths(fn, resolver=resolver_for(m))
     ctx.rep.unit(f"paths of deterministic_choice: {len(paths)}")
     rnd_names = {k for k, v in m.imports.items() if v[0] in ("random", "secrets", "numpy.random")}
     n = 0
@@ -937,13 +1060,27 @@ def rule_commit_order(ctx: Ctx, rid="C11.COMMIT-ORDER", parse_only=False):
     self_name = rec.args.args[0].arg
     mm = set(module_level_mutables(m))
     cn = set(m.classes())
-    paths = flow.enumerate_paths(rec)
-    ctx.rep.unit(f"{EV}:ExperimentEvaluator.recompile ({len(paths)} paths)")
+    paths = flow.enumerate_paths(rec, resolver=resolver_for(m, c))
+    ctx.rep.unit(f"{EV}:ExperimentEvaluator.recompile ({len(paths)} paths, helpers inlined)")
     nW = 0
     wset = {}
     reported = set()
+    def residual_may_raise(st, expanded):
+        """May `st` raise apart from the helper calls that were already expanded in front of it?"""
+        if id(st) not in expanded:
+            return flow.may_raise_stmt(st)
+        res = resolver_for(m, c)
+        import copy
+
+        class Strip(ast.NodeTransformer):
+            def visit_Call(self, n):
+                self.generic_visit(n)
+                return ast.Name(id="__helper_result__", ctx=ast.Load()) if res(n) is not None else n
+        return flow.may_raise_stmt(Strip().visit(copy.deepcopy(st)))
+
     for p in paths:
         first_w = None
+        expanded = p.expanded_stmts()
         for ev in p.events:
             st = ev if isinstance(ev, ast.AST) else None
             if st is None:
@@ -968,7 +1105,7 @@ def rule_commit_order(ctx: Ctx, rid="C11.COMMIT-ORDER", parse_only=False):
             if parse_only and not any(isinstance(x, ast.Call) and dotted(x.func) in ("parse_source",) for x in ast.walk(st)) \
                     and not (isinstance(st, ast.Raise)):
                 continue
-            if first_w is not None and flow.may_raise_stmt(st) and not isinstance(st, ast.Return):
+            if first_w is not None and residual_may_raise(st, expanded) and not isinstance(st, ast.Return):
                 key = (norm(first_w), norm(st))
                 if key not in reported:
                     reported.add(key)
@@ -1003,7 +1140,7 @@ def rule_skip_guard(ctx: Ctx, rid="C11.SKIP-GUARD"):
     rec = m.get_method(c, "recompile")
     param = rec.args.args[1].arg
     env, multi = _single_assign_env(rec)
-    paths = flow.enumerate_paths(rec)
+    paths = flow.enumerate_paths(rec, resolver=resolver_for(m, c))
     compile_calls = ("parse_source",)
     skip = [p for p in paths if p.exit in ("return", "fall")
             and not any(isinstance(x, ast.Call) and dotted(x.func) in compile_calls for s in p.stmts() for x in ast.walk(s))]
@@ -1028,7 +1165,7 @@ def rule_skip_guard(ctx: Ctx, rid="C11.SKIP-GUARD"):
         if not equal_on_skip or len(stored) != 1 or len(fresh) != 1:
             ctx.rep.bad(rid, con, f"skip is not `stored fingerprint == fingerprint of the argument`: {norm(test)}", text=norm(test))
             continue
-        fe = _inline_helpers(m, _subst(fresh[0], env))
+        fe = _inline_helpers(m, _subst(fresh[0], env), cls=c)
         # walk the expression: param must reach through encode / hash constructor / hexdigest only
         bad_calls = []
         uses_param = False
@@ -1075,10 +1212,14 @@ def rule_skip_guard(ctx: Ctx, rid="C11.SKIP-GUARD"):
             algo = next((dotted(n.func) for n in ast.walk(fe) if isinstance(n, ast.Call) and (dotted(n.func) or "").startswith("hashlib.")), None)
             ctx.rep.ok(rid, con, f"skips only when {attr} == {algo or 'the text'}(<whole argument text>)", site=m.site(test))
         # the stored fingerprint is only ever assigned that same fresh value
-        for st in walk_no_nested(rec):
+        all_stmts = {id(x): x for p_ in paths for x in p_.stmts()}.values()
+        for st in all_stmts:
             for k, a, rhs in _is_state_write(st, "self", set(), set()) if isinstance(st, ast.stmt) else []:
                 if "self." + str(a) == attr:
-                    same = rhs is not None and norm(_subst(rhs, env)) == norm(fe)
+                    rr = _inline_helpers(m, _subst(rhs, env), cls=c) if rhs is not None else None
+                    # inside a helper the fingerprint arrives as a parameter: accept a plain name there
+                    in_helper = not any(st is x for x in walk_no_nested(rec))
+                    same = rr is not None and (norm(rr) == norm(fe) or (in_helper and isinstance(rhs, (ast.Name, ast.Attribute))))
                     ctx.rep.check(same, rid, f"{EV}:ExperimentEvaluator.recompile[{attr} :=]",
                                   "the stored fingerprint is assigned the fingerprint of the text just compiled" if same else
                                   f"{attr} is assigned {norm(rhs)[:60] if rhs is not None else '?'}, not the fingerprint compared by the skip test",
@@ -1103,7 +1244,7 @@ def rule_fingerprint_recorded(ctx: Ctx, rid="C11.FINGERPRINT-RECORDED"):
         ctx.rep.ok(rid, f"{EV}:ExperimentEvaluator.recompile", "no fingerprint-based skip: nothing to record", nontrivial=False)
         return
     n = 0
-    for p in flow.enumerate_paths(rec):
+    for p in flow.enumerate_paths(rec, resolver=resolver_for(m, c)):
         if p.exit not in ("return", "fall"):
             continue
         writes = []
@@ -1279,10 +1420,11 @@ def rule_call_forwards(ctx: Ctx, rid="C09.CALL-FORWARDS", publish=False, no_try=
     paths = flow.enumerate_paths(call)
     rec = m.get_method(c, "recompile")
     written = set()
-    for st in walk_no_nested(rec):
-        if isinstance(st, ast.stmt):
-            for k, at, rhs in _is_state_write(st, "self", set(), set()):
-                written.add(at)
+    for p_ in flow.enumerate_paths(rec, resolver=resolver_for(m, c)):
+        for st in p_.stmts():
+            if isinstance(st, ast.stmt):
+                for k, at, rhs in _is_state_write(st, "self", set(), set()):
+                    written.add(at)
     n = 0
     for p in paths:
         if p.exit != "return":
@@ -1369,10 +1511,11 @@ def rule_init_delegates(ctx: Ctx, rid="C11.INIT-DELEGATES"):
 def rule_none_is_error(ctx: Ctx, rid="C06.NONE-IS-ERROR"):
     m, c = _evaluator(ctx)
     rec = m.get_method(c, "recompile")
-    paths = flow.enumerate_paths(rec)
+    paths = flow.enumerate_paths(rec, resolver=resolver_for(m, c))
     # on every path that uses the parse result, an `is None` test with a raising true arm came first
     parse_names = set()
-    for st in walk_no_nested(rec):
+    every = {id(x): x for p_ in paths for x in p_.stmts()}.values()
+    for st in every:
         if isinstance(st, ast.Assign) and isinstance(st.value, ast.Call) and dotted(st.value.func) == "parse_source":
             for t in st.targets:
                 if isinstance(t, ast.Name):
@@ -1395,7 +1538,9 @@ def rule_none_is_error(ctx: Ctx, rid="C06.NONE-IS-ERROR"):
                 assigns_it = isinstance(ev, ast.Assign) and any(isinstance(t, ast.Name) and t.id == nm for t in ev.targets)
                 if uses and not assigns_it and not tested and not isinstance(ev, ast.Raise):
                     bad = ev
-        if p.facts.get(nm) in ("none", "falsy"):
+        none_seen = any(isinstance(ev, tuple) and ev[0] == "test" and (flow._fact_of(ev[1], ev[2]) or (None, None))[0] == nm
+                        and flow._fact_of(ev[1], ev[2])[1] in ("none", "falsy") for ev in p.events)
+        if none_seen:
             n += 1
             if p.exit != "raise":
                 bad = bad or p.exit_node or rec
@@ -1477,7 +1622,21 @@ def rule_returns_element(ctx: Ctx, rid="C16.RETURNS-ELEMENT"):
             if isinstance(it, ast.Call) and dotted(it.func) == "enumerate" and it.args and dotted(it.args[0]) == pop \
                     and isinstance(tg, ast.Tuple) and len(tg.elts) == 2 and isinstance(tg.elts[1], ast.Name):
                 elem_vars.add(tg.elts[1].id)
-        if isinstance(v, ast.Name) and v.id in elem_vars:
+        unpacked = {}
+        for a_ in [x for x in walk_no_nested(fn) if isinstance(x, ast.Assign)]:
+            t_ = a_.targets[0]
+            if isinstance(t_, (ast.Tuple, ast.List)) and len(t_.elts) == 1 and isinstance(t_.elts[0], ast.Name) and isinstance(a_.value, ast.Call):
+                unpacked[t_.elts[0].id] = a_.value
+        if isinstance(v, ast.Name) and v.id in unpacked and dotted(unpacked[v.id].func) in rnd | {"random.choices"}:
+            c = unpacked[v.id]
+            kw = {k.arg: k.value for k in c.keywords}
+            pos = list(c.args)
+            popv = kw.get("population") or (pos[0] if pos else None)
+            wv = kw.get("weights") or (pos[1] if len(pos) > 1 else None)
+            forwards = dotted(popv) == pop and dotted(wv) == "weights" and dotted(kw.get("cum_weights")) == "cum_weights" \
+                and isinstance(kw.get("k"), ast.Constant) and kw["k"].value == 1
+            ok, why = forwards, "the single item of random.choices(population, weights, cum_weights=cum_weights, k=1)"
+        elif isinstance(v, ast.Name) and v.id in elem_vars:
             ok, why = True, f"a loop variable ranging over {pop}"
         elif isinstance(v, ast.Subscript) and dotted(v.value) == pop and not isinstance(v.slice, ast.Slice):
             ok, why = True, f"an element read of {pop}"
@@ -1485,6 +1644,8 @@ def rule_returns_element(ctx: Ctx, rid="C16.RETURNS-ELEMENT"):
             c = v.value
             kw = {k.arg: k.value for k in c.keywords}
             popv = kw.get("population") or (c.args[0] if c.args else None)
+            if "weights" not in kw and len(c.args) > 1:
+                kw["weights"] = c.args[1]
             forwards = dotted(popv) == pop and dotted(kw.get("weights")) == "weights" and dotted(kw.get("cum_weights")) == "cum_weights" \
                 and isinstance(kw.get("k"), ast.Constant) and kw["k"].value == 1 and _const_int(v.slice) == 0
             ok, why = forwards, "random.choices(population, weights=weights, cum_weights=cum_weights, k=1)[0]" if forwards else \
@@ -1505,14 +1666,42 @@ def _orig_param_facts(p):
     """Facts established by tests on a name *before* its first assignment on the path
     (i.e. about the caller's argument)."""
     assigned, facts = set(), {}
+    depth = 0
+    last_ret, last_call, last_fn = None, None, None
     for e in p.events:
+        if isinstance(e, tuple) and e[0] == "enter":
+            depth += 1
+            last_fn, last_call, last_ret = e[1], e[2], None
+            continue
+        if isinstance(e, tuple) and e[0] == "leave":
+            depth -= 1
+            continue
+        if depth > 0:
+            if isinstance(e, ast.Return):
+                last_ret = e.value
+            if isinstance(e, tuple) and e[0] == "test" and last_fn is not None:
+                # a test on a helper's parameter is a test on the caller's argument of that name
+                f = flow._fact_of(e[1], e[2])
+                ps = [a.arg for a in last_fn.args.args]
+                amap = {p_: a_.id for p_, a_ in zip(ps, last_call.args) if isinstance(a_, ast.Name)}
+                if f and f[0] in amap and amap[f[0]] not in assigned:
+                    facts[amap[f[0]]] = f[1]
+            continue
         if isinstance(e, tuple) and e[0] == "test":
             f = flow._fact_of(e[1], e[2])
             if f and f[0] not in assigned:
                 facts[f[0]] = f[1]
         elif isinstance(e, ast.AST):
+            passthrough = set()
+            if isinstance(e, ast.Assign) and last_call is not None and any(x is last_call for x in ast.walk(e)) \
+                    and isinstance(last_ret, ast.Name) and last_fn is not None:
+                ps = [a.arg for a in last_fn.args.args]
+                amap = {p_: a_.id for p_, a_ in zip(ps, last_call.args) if isinstance(a_, ast.Name)}
+                for t in e.targets:
+                    if isinstance(t, ast.Name) and amap.get(last_ret.id) == t.id:
+                        passthrough.add(t.id)     # x = helper(..., x) returned x itself: still the caller's object
             for n in ast.walk(e):
-                if isinstance(n, ast.Name) and isinstance(n.ctx, ast.Store):
+                if isinstance(n, ast.Name) and isinstance(n.ctx, ast.Store) and n.id not in passthrough:
                     assigned.add(n.id)
     return facts
 
@@ -1523,7 +1712,7 @@ def rule_guards(ctx: Ctx, rid="C16.GUARDS"):
     TypeError; each guard's true arm raises the documented class."""
     m, fn = _choice(ctx)
     idp = fn.args.args[0].arg
-    paths = flow.enumerate_paths(fn)
+    paths = flow.enumerate_paths(fn, resolver=resolver_for(m))
     con = f"{BIN}:deterministic_choice"
     env, _ = _single_assign_env(fn)
     n = 0
@@ -1585,7 +1774,7 @@ def rule_unweighted(ctx: Ctx, rid="C16.UNWEIGHTED"):
         v = r.value
         if isinstance(v, ast.Subscript) and dotted(v.value) == pop:
             t = norm(_subst(v.slice, env))
-            if "floor" in t:
+            if "floor" in t or t.startswith("int("):
                 hits.append((r, t))
     if not hits:
         raise AnalysisError("unweighted path `population[floor(u*n)]` not found: idiom not recognised")
@@ -1649,10 +1838,10 @@ def rule_stats(ctx: Ctx):
                 return env[d](*args)
             f = m.functions().get(d)
             if f is not None and not e.keywords:
-                body = [x for x in f.body if not (isinstance(x, ast.Expr) and isinstance(x.value, ast.Constant))]
                 ps = [a_.arg for a_ in f.args.args]
-                if len(body) == 1 and isinstance(body[0], ast.Return) and len(ps) == len(args):
-                    return to_sym(body[0].value, {**sym, **dict(zip(ps, args))})
+                val = _helper_value(m, f)
+                if val is not None and len(ps) == len(args):
+                    return to_sym(val, {**sym, **dict(zip(ps, args))})
             raise AnalysisError(f"stats: call {d} not modelled")
         if isinstance(e, ast.Tuple):
             return tuple(to_sym(x, env) for x in e.elts)
@@ -1692,7 +1881,7 @@ def rule_stats(ctx: Ctx):
                   site=m.site(probit), text=f"sign of {f}")
 
     # ---- confidence_interval: enumerate paths
-    paths = flow.enumerate_paths(ci)
+    paths = flow.enumerate_paths(ci)      # helpers are inlined at expression level by to_sym
     ctx.rep.unit(f"paths of confidence_interval: {len(paths)}")
     params = [x.arg for x in ci.args.args]
     if params[:4] != ["n", "p", "confidence", "method"]:
@@ -1730,6 +1919,9 @@ def rule_stats(ctx: Ctx):
                     c0 = t.comparators[0]
                     if isinstance(t.ops[0], ast.Eq) and isinstance(c0, ast.Constant):
                         lit = [c0.value]
+                    elif isinstance(t.ops[0], ast.NotEq) and isinstance(c0, ast.Constant):
+                        lit = [c0.value]
+                        truth = not truth          # `m != X` being false means the method is X
                     elif isinstance(t.ops[0], ast.In):
                         if isinstance(c0, (ast.Tuple, ast.List, ast.Set)) and all(isinstance(x, ast.Constant) for x in c0.elts):
                             lit = [x.value for x in c0.elts]
@@ -1862,6 +2054,28 @@ def rule_text_unmodified(ctx: Ctx, rid="C08.TEXT-UNMODIFIED"):
     rp = rec.args.args[1].arg
     renv, _ = _single_assign_env(rec)
     calls = [x for x in walk_no_nested(rec) if isinstance(x, ast.Call) and dotted(x.func) == "parse_source"]
+    if not calls:
+        # look into the helpers recompile calls: the helper's parameter must be bound to recompile's own parameter
+        res = resolver_for(m, c)
+        for hc in [x for x in walk_no_nested(rec) if isinstance(x, ast.Call)]:
+            f = res(hc)
+            if f is None:
+                continue
+            ps = [a_.arg for a_ in f.args.args]
+            if ps and ps[0] in ("self", "cls") and isinstance(hc.func, ast.Attribute):
+                ps = ps[1:]
+            bind = dict(zip(ps, hc.args))
+            for x in walk_no_nested(f):
+                if isinstance(x, ast.Call) and dotted(x.func) == "parse_source" and x.args:
+                    fenv, _ = _single_assign_env(f)
+                    inner = _subst(x.args[0], fenv)
+                    if isinstance(inner, ast.Name) and inner.id in bind:
+                        import copy
+                        y = copy.copy(x)
+                        y.args = [bind[inner.id]] + list(x.args[1:])
+                        calls.append(y)
+                    else:
+                        calls.append(x)
     for x in calls:
         a = _subst(x.args[0], renv) if x.args else None
         rstores = [n for n in walk_no_nested(rec) if isinstance(n, ast.Name) and isinstance(n.ctx, ast.Store) and n.id == rp]
